@@ -22,6 +22,8 @@ func knownCases() []knownCase {
 	deny203 := Policy{Deny: []Entry{wellFormed("203.0.113.0/24")}}
 	bad := Policy{Allow: []Entry{wellFormed("10.0.0.0/8"), malformed("192.168.1.0/33")}}
 	badDeny := Policy{Deny: []Entry{wellFormed("203.0.113.0/24"), malformed("198.51.100.50/")}}
+	mapAllow := Policy{Allow: []Entry{wellFormed("::ffff:10.0.0.1")}}
+	mapDeny := Policy{Deny: []Entry{wellFormed("::ffff:10.0.0.1")}}
 	list := Req{Kind: "list", Method: "GET", Path: "/v1/backends"}
 	rm := Req{Kind: "remove", Method: "POST", Path: "/v1/backends/remove", Body: `{"name":"hx-alpha-0"}`}
 	with := func(r Req, remote, xff, xri string) Req { r.Remote, r.XFF, r.XRI = remote, xff, xri; return r }
@@ -32,12 +34,16 @@ func knownCases() []knownCase {
 		{findingHeaders, "allowed peer is refused because of a header it sent", ipCase{Policy: allow10, Req: with(list, "10.1.2.3:40000", "203.0.113.7", "")}},
 		{findingMalformed, "allow list with one malformed entry: peer outside the well-formed entry", ipCase{Policy: bad, Req: with(list, "203.0.113.7:40000", "", "")}},
 		{findingMalformed, "deny list with one malformed entry: denied peer removes a backend", ipCase{Policy: badDeny, Req: with(rm, "203.0.113.7:40000", "", "")}},
+		{findingMapped, "allow list with one IPv4-mapped single address: an unrelated IPv6 peer is served", ipCase{Policy: mapAllow, Req: with(list, "[::1]:40000", "", "")}},
+		{findingMapped, "allow list with one IPv4-mapped single address: that very address is refused", ipCase{Policy: mapAllow, Req: with(list, "10.0.0.1:40000", "", "")}},
+		{findingMapped, "deny list with one IPv4-mapped single address: that very address removes a backend", ipCase{Policy: mapDeny, Req: with(rm, "10.0.0.1:40000", "", "")}},
+		{findingMapped, "deny list with one IPv4-mapped single address: an unrelated IPv6 peer is refused", ipCase{Policy: mapDeny, Req: with(list, "[::1]:40000", "", "")}},
 	}
 }
 
 func TestC10KnownFindings(t *testing.T) {
 	const name = "admin-regressions"
-	sub := lab.Sub(name, "fixed reproductions of the findings of this property (forged X-Forwarded-For / X-Real-IP in both directions; allow and deny lists with one malformed entry), "+
+	sub := lab.Sub(name, "fixed reproductions of the findings of this property (forged X-Forwarded-For / X-Real-IP in both directions; allow and deny lists with one malformed entry; allow and deny lists with one IPv4-mapped single address), "+
 		"checked with the same oracle as the generated cases; a failing reproduction is a KNOWN-FINDING while its key is open in known_findings.json, otherwise a violation; non-trivial = all")
 	var rc knownCase
 	replay := lab.ReplayCase(name, &rc)
@@ -47,12 +53,18 @@ func TestC10KnownFindings(t *testing.T) {
 	if lab.Shard() != 0 && !replay {
 		t.Skip("fixed cases: run by shard 0 only")
 	}
-	reported := map[string]bool{}
+	first := map[string]string{}
+	failing := map[string][]string{}
+	var keys []string
+	defer func() {
+		for _, k := range keys {
+			lab.KnownFinding(k, fmt.Sprintf("%s; %d reproduction(s) still fail %q; first: %s", lab.OpenWhat(k), len(failing[k]), failing[k], first[k]))
+		}
+	}()
 	for _, kc := range knownCases() {
 		if replay && kc.Name != rc.Name {
 			continue
 		}
-		// rebuild unexported parts of the policy (a replayed case went through JSON)
 		s := newSUT(kc.Case.Token, kc.Case.Policy)
 		viol, _, _ := ipOracle(s, kc.Case)
 		s.close()
@@ -61,10 +73,11 @@ func TestC10KnownFindings(t *testing.T) {
 			continue
 		}
 		if lab.Open(kc.Key) {
-			if !reported[kc.Key] {
-				reported[kc.Key] = true
-				lab.KnownFinding(kc.Key, fmt.Sprintf("%s; reproduction %q: %s", lab.OpenWhat(kc.Key), kc.Name, viol))
+			if first[kc.Key] == "" {
+				first[kc.Key] = viol
+				keys = append(keys, kc.Key)
 			}
+			failing[kc.Key] = append(failing[kc.Key], kc.Name)
 			continue
 		}
 		lab.Violation(t, name, kc, "%s: %s", kc.Name, viol)
